@@ -161,8 +161,9 @@ def handle (mode : String) (line : String) : String :=
       if obs == exp then "ok" else s!"violates peer table: expected `{exp}` (one live entry per peer whose latest event is a well-formed datagram or a server-initiated connection)"
     | "serve" :: "udpwild" :: _ =>
       match words obs with
-      | ["wild", "a", ga, "b", gb, "stopped", _] =>
-        if ga == "2/2" && gb == "1/1" then "ok"
+      | ["wild", "a", ga, "b", gb, "stopped", _, "srvinit", si] =>
+        if si != "1" then "violates the answer to a server-initiated request (Server.NewConn on a wildcard-bound server) did not reach the connection NewConn returned after other peers had used another local address of the server"
+        else if ga == "2/2" && gb == "1/1" then "ok"
         else s!"violates peers that reach a wildcard-bound datagram server over different local addresses: peer A got {ga} of its responses, peer B {gb} (a response must come from the address its request was sent to, whatever other peers send meanwhile)"
       | _ => "violates unparsable-observation"
     | "tablerace" :: _ =>
